@@ -36,4 +36,5 @@ using BndPBR = BndR<PBR>;
 #define HH(tier, name, T, R, N) extern "C" void tier##_hostile_heap_##name##__##R##_n##N(void) { hostile_heap<T, R, N>(); }
 HH(hq, vu8, VU8, PBR, 0) HH(hq, vu8, VU8, BR, 3) HH(hq, vu8, VU8, PBR, 10) HH(hq, vu8, VU8, BndPBR, 6)
 HH(hq, vu16, VU16, PBR, 4) HH(hq, vu16, VU16, BR, 11) HH(hq, str, STR, PBR, 3) HH(hq, str, STR, BR, 10) HH(hq, str16, STR16, PBR, 7) HH(hq, str16, STR16, BndPBR, 11)
-HH(ht, vu8, VU8, PBR, 12) HH(ht, vu16, VU16, PBR, 12) HH(ht, str, STR, PBR, 12) HH(ht, str16, STR16, PBR, 12) HH(ht, vs0, VS0, PBR, 4) HH(ht, vs0, VS0, PBR, 8)
+HH(ht, vu8, VU8, PBR, 12) HH(ht, vu16, VU16, PBR, 12) HH(ht, str, STR, PBR, 12) HH(ht, str16, STR16, PBR, 12)
+// std::vector<S0> (VS0, heap vector of user structures): cbmc leaves 300+ properties UNKNOWN at n = 4 and n = 8 (no verdict in 340 s): outside the encodable bound, not claimed.
